@@ -31,7 +31,11 @@ def obligations():
 
 
 def _own():
+    import C12
     obs = [
+        KModelOb('O11.5-same-last-state', 'lcproto', 'same_last_state_keeps_its_age', 'SendLastStateProcess::execute (real text, over the real PeerState text): a SendLastState that repeats the peer\'s current last state '
+                 'changes nothing - the age of the unchanged last state is not refreshed and an outstanding GetLastState request is not completed - so "an unchanged last state leads to disconnection after the message timeout"',
+                 C12.ex_lcproto, 'peer in OnlyHasLastState / Ready / RequestNewLastState on an arbitrary header, arbitrary clocks', cuts=C12.CUTS, timeout=900, mem_gb=10, min_covers=1, weight=3),
         KModelOb('O11.3-timeouts', 'ups:timeout', 'timeouts', 'Peers::get_peers_which_have_timeout (real text, over the real PeerState text): a peer is reported iff a request to it (state machine, blocks proof, blocks, '
                  'transactions proof) is unanswered for longer than MESSAGE_TIMEOUT or its last state was not refreshed within MESSAGE_TIMEOUT - each such peer exactly once, nobody else',
                  ex_timeouts, '2 peers in arbitrary states with arbitrary in-flight requests; clock readings below 2^62 ms, arbitrary now', cuts=['DashMap -> array', 'in-flight request structs -> (when_sent)'],
